@@ -3,6 +3,8 @@
 Op vocabulary (positional arguments first, `o=<slot>` selects the array, default slot 0):
   new cap=<n> exp=<decimal> | new_default
   add v | add_at v i | replace_at v i | swap_at i j | remove v | remove_at i | remove_last
+  (replace_at, remove, remove_at, remove_last, it_remove, it_replace, zit_remove, zit_replace take `noout=1`:
+   a NULL out-pointer is passed and no out= is printed)
   remove_all | remove_all_free | reverse | filter_mut | trim_capacity
   get_at i | get_last | index_of v | contains v | contains_value v | size | capacity | map | reduce r0
   sort | sort_mod
@@ -26,12 +28,25 @@ NSLOT = 4
 
 
 def pick_value(rng):
+    """small values and duplicates; 0 (NULL); and — CONVENTIONS addendum 3 — pairs that differ by exactly
+    2^31, 2^32, 2^63 (a small `v` and `v + 2^k`) and values near 2^64 - 1, so that a comparison that
+    truncates a pointer difference to 32 bits, or treats elements as signed, is exposed"""
     r = rng.random()
     if r < 0.08:
         return 0
-    if r < 0.55:
+    if r < 0.16:
+        return rng.randint(1, 6) + rng.choice([2 ** 31, 2 ** 32, 2 ** 63])
+    if r < 0.20:
+        return rng.choice([2 ** 64 - 1, 2 ** 64 - 2, 2 ** 64 - 7, 2 ** 64 - 1000, 2 ** 63 - 1, 2 ** 63, 2 ** 32 - 1, 2 ** 32,
+                           2 ** 31 - 1, 2 ** 31, 2 ** 63 + 2 ** 32 + 3])
+    if r < 0.58:
         return rng.randint(1, 6)
     return rng.randint(1, 99)
+
+
+def maybe_noout(rng, p=0.3):
+    """CONVENTIONS addendum 3: operations with an optional out-pointer are generated with and without it"""
+    return " noout=1" if rng.random() < p else ""
 
 
 
@@ -73,11 +88,13 @@ class ArrayGen:
         core = ["add 1", "add 2", "add 0", "add 1", "add_at 3 0", "add_at 4 1", "remove_at 0", "remove_last",
                 "remove 1", "reverse", "filter_mut", "trim_capacity", "replace_at 5 0", "swap_at 0 1", "remove_all"]
         tail = ["index_of 1", "contains 1", "contains_value 11", "get_at 0", "get_at 1", "get_last", "map", "reduce 7"]
+        core = core + ["remove 1 noout=1", "replace_at 6 0 noout=1", f"add {1 + 2 ** 63}", f"add {2 ** 64 - 1}", f"remove {1 + 2 ** 31}",
+                       f"add {1 + 2 ** 31}"]
         if focus in ("sort", "all"):
             core = core + ["sort", "sort_mod", "add 12", "add 21"]
         if focus in ("iter", "all"):
             core = [c for c in core if c not in ("swap_at 0 1", "replace_at 5 0", "add 0")] + \
-                   ["it_new", "it_next", "it_remove", "it_add 8", "it_replace 9", "it_index"]
+                   ["it_new", "it_next", "it_remove", "it_add 8", "it_replace 9", "it_index", "it_remove noout=1", "it_replace 7 noout=1"]
         if focus in ("derived", "all", "fault"):
             core = [c for c in core if c not in ("swap_at 0 1", "replace_at 5 0", "add 0", "reverse")] + \
                    ["mk_sub 0 1 to=1", "mk_copy_shallow to=1", "mk_filter to=1", "mk_copy_deep to=1", "add 7 o=1", "drop o=1"]
@@ -91,7 +108,9 @@ class ArrayGen:
             core = ["add 1", "add 2", "add_at 3 0", "remove_last", "trim_capacity"]
         # two layers: a trimmed alphabet enumerated deeper, the full alphabet enumerated shallower
         base = ["add 1", "add 2", "add 0", "add_at 3 0", "add_at 4 1", "remove_at 0", "remove_last", "remove 1",
-                "filter_mut", "trim_capacity"]
+                "filter_mut", "trim_capacity",
+                # addendum 3: NULL out-pointers; an element exactly 2^32 away from another one
+                "remove_last noout=1", "remove_at 0 noout=1", f"add {1 + 2 ** 32}"]
         quick = tier == "quick"
         if focus == "growth":
             layers = [(core, 4 if quick else 6, [(1, "2"), (1, "1.5"), (2, "1.1"), (3, "3")] if quick else
@@ -270,19 +289,19 @@ class ArrayGen:
                 v = pick_value(rng); i = idx(len(xs), insert=True); ops.append(f"add_at {v} {i}{sfx}")
                 if i <= len(xs): xs.insert(i, v)
             elif op == "replace_at":
-                v = pick_value(rng); i = idx(len(xs)); ops.append(f"replace_at {v} {i}{sfx}")
+                v = pick_value(rng); i = idx(len(xs)); ops.append(f"replace_at {v} {i}{sfx}{maybe_noout(rng)}")
                 if i < len(xs): xs[i] = v
             elif op == "swap_at":
                 i, j = idx(len(xs)), idx(len(xs)); ops.append(f"swap_at {i} {j}{sfx}")
                 if i < len(xs) and j < len(xs): xs[i], xs[j] = xs[j], xs[i]
             elif op == "remove":
-                v = val(xs, 0.5 if focus == "reject" else 0.8); ops.append(f"remove {v}{sfx}")
+                v = val(xs, 0.5 if focus == "reject" else 0.8); ops.append(f"remove {v}{sfx}{maybe_noout(rng)}")
                 if v in xs: xs.remove(v)
             elif op == "remove_at":
-                i = idx(len(xs)); ops.append(f"remove_at {i}{sfx}")
+                i = idx(len(xs)); ops.append(f"remove_at {i}{sfx}{maybe_noout(rng)}")
                 if i < len(xs): del xs[i]
             elif op == "remove_last":
-                ops.append(f"remove_last{sfx}")
+                ops.append(f"remove_last{sfx}{maybe_noout(rng)}")
                 if xs: xs.pop()
             elif op in ("remove_all", "remove_all_free"):
                 ops.append(op + sfx); del xs[:]
@@ -360,10 +379,10 @@ class ArrayGen:
                     pos += 1
                     if rng.random() < 0.3: ops.append("it_index")
                     if op == "iter_prog" and rng.random() < 0.25:
-                        v = pick_value(rng); ops.append(f"it_replace {v}"); xs[pos - 1] = v
+                        v = pick_value(rng); ops.append(f"it_replace {v}{maybe_noout(rng)}"); xs[pos - 1] = v
                     r = rng.random()
                     if op == "iter_prog" and r < 0.3:
-                        ops.append("it_remove"); pos -= 1; del xs[pos]
+                        ops.append("it_remove" + maybe_noout(rng)); pos -= 1; del xs[pos]
                         if rng.random() < 0.1: ops.append("it_remove")      # rejected: already removed
                     elif r < 0.55:
                         v = pick_value(rng); ops.append(f"it_add {v}"); xs.insert(pos, v); pos += 1
@@ -426,10 +445,10 @@ class ArrayGen:
                     pos += 1
                     if rng.random() < 0.3: ops.append("zit_index")
                     if rng.random() < 0.25:
-                        v, w = pick_value(rng), pick_value(rng); ops.append(f"zit_replace {v} {w}"); xs[pos - 1] = w
+                        v, w = pick_value(rng), pick_value(rng); ops.append(f"zit_replace {v} {w}{maybe_noout(rng)}"); xs[pos - 1] = w
                     r = rng.random()
                     if r < 0.25:
-                        ops.append("zit_remove"); pos -= 1; del xs[pos]
+                        ops.append("zit_remove" + maybe_noout(rng)); pos -= 1; del xs[pos]
                         if pos < len(xs): del xs[pos]
                         if rng.random() < 0.1: ops.append("zit_remove")
                     elif r < 0.6:
@@ -457,10 +476,10 @@ class ArrayGen:
                     pos += 1
                     if rng.random() < 0.3: ops.append("zit_index")
                     if op == "zip_prog" and rng.random() < 0.25:
-                        v, w = pick_value(rng), pick_value(rng); ops.append(f"zit_replace {v} {w}"); xa[pos - 1] = v; xb[pos - 1] = w
+                        v, w = pick_value(rng), pick_value(rng); ops.append(f"zit_replace {v} {w}{maybe_noout(rng)}"); xa[pos - 1] = v; xb[pos - 1] = w
                     r = rng.random()
                     if op == "zip_prog" and r < 0.3:
-                        ops.append("zit_remove"); pos -= 1; del xa[pos]; del xb[pos]
+                        ops.append("zit_remove" + maybe_noout(rng)); pos -= 1; del xa[pos]; del xb[pos]
                         if rng.random() < 0.1: ops.append("zit_remove")
                     elif r < 0.5:
                         v, w = pick_value(rng), pick_value(rng); ops.append(f"zit_add {v} {w}")
